@@ -168,12 +168,22 @@ def createTarFileP (path xd : Str) (e : Entry) (o : Opts) : Prog Out := do
   | .xglobal => return .ok
   | .other => return .err
 
+/-- a non-directory where a directory is needed -/
+def notDirRes : Res → Bool
+  | .stat si => si.kind != .dir
+  | _ => false
+
+/-- the deferred directory times; a path that a later entry replaced by something that is not a
+    directory is left alone (fix D25) -/
 def dirTimesP (dest : Str) : List Entry → Prog Out
   | [] => pure .ok
   | e :: es => do
-    let r ← sys (.utimes (join dest e.name) (some (boundTime e.mtime)) true)
-    if isErr r then return .err
-    dirTimesP dest es
+    let l ← sys (.lstat (join dest e.name))
+    if notDirRes l then dirTimesP dest es
+    else
+      let r ← sys (.utimes (join dest e.name) (some (boundTime e.mtime)) true)
+      if isErr r then return .err
+      dirTimesP dest es
 
 /-- `remapIDs` -/
 def remapE (o : Opts) (e : Entry) : Option Entry :=
@@ -273,11 +283,6 @@ def layerFinish (dest : Str) (st : LState) (out : Out) : Prog (Out × Nat) := do
   -- deferred os.RemoveAll(aufsTempdir) runs on every exit once the directory was made
   let _ ← (if st.tmp ≠ [] then sys (.removeAll st.tmp) else pure .ok)
   pure (out, if out == .ok then st.size else 0)
-
-/-- a non-directory where a directory is needed -/
-def notDirRes : Res → Bool
-  | .stat si => si.kind != .dir
-  | _ => false
 
 /-- removal for a whiteout: first make sure the directory `os.RemoveAll` may have to open is not a
     fifo or a device (fix D16); `none` = refused -/
